@@ -338,7 +338,10 @@ func cmdVerify(args []string) int {
 			if o.Kind == "reach" {
 				// branch probes are diagnostics: shown, never counted
 				if o.Status != "cover-ok" {
-					fmt.Printf("  %-14s %-70s paths=%d (branch not reachable in the model)\n", "note", o.Name, o.Paths)
+					fmt.Printf("  %-14s %-70s paths=%d (branch not reachable in the model: %s)\n", "note", o.Name, o.Paths, o.Status)
+					if qdir != "" && o.query != "" {
+						saveQuery(qdir, o.Name, o.query)
+					}
 				}
 				continue
 			}
